@@ -92,7 +92,7 @@ Submit(i) ==
           /\ ret' = Append(ret, [i |-> i, ok |-> r.ret, busy |-> Has(node[n].snd, Hash(m.sa, IF m.ps = GLOBAL \/ IsPdu2(m.pf) THEN GLOBAL ELSE m.ps))])
           \* a transfer started while the stacks are still cleaning up after a fault may be hit by it too
           /\ EmitT(n, r.out, wire, IF r.ret THEN DmAccept(dm, n, a) ELSE DmRefuse(dm),
-                   IF r.ret /\ (lost > 0 \/ alive # Nodes) /\ ~SettledNow THEN tainted \cup {Len(dm.acc) + 1} ELSE tainted)
+                   IF r.ret /\ (lost > 0 \/ alive # Nodes \/ advn > 0) /\ ~SettledNow THEN tainted \cup {Len(dm.acc) + 1} ELSE tainted)
     /\ sent' = sent \cup {i}
     /\ UNCHANGED <<pc, now, alive, advn, dead, spin>>
 
@@ -115,7 +115,7 @@ Hostile(f) ==
        IN /\ ~r.unmodeled
           /\ node' = [node EXCEPT ![f.to] = r.ns]
           \* the hostile frame is a frame on the bus too (sent by somebody else than the stacks under test)
-          /\ EmitB(f.to, r.out, wire, dm, tainted,
+          /\ EmitB(f.to, r.out, wire, dm, tainted \cup (1..Len(dm.acc)),
                    BmStep(bm, dm.acc, NodeCfg, f.to, [ev |-> "ptx", id |-> f.id, data |-> f.data, t |-> now, fd |-> FALSE, ext |-> TRUE]).bm)
     /\ advn' = advn + 1
     /\ UNCHANGED <<pc, now, sent, alive, dead, spin, ret>>
@@ -208,7 +208,7 @@ Faultless == lost = 0 /\ alive = Nodes /\ advn = 0
 Tr0 == [cfg |-> NodeCfg, expect |-> [all |-> TRUE, idle |-> TRUE]]
 DeliveredAll == (Settled /\ Faultless) => DmFinal(dm, Tr0) = {}
 \* C06: a message that no fault can have hit (accepted after the last loss) is delivered everywhere
-CleanDelivered == (Settled /\ alive = Nodes /\ advn = 0) =>
+CleanDelivered == (Settled /\ alive = Nodes) =>
                      \A i \in 1..Len(dm.acc) : Undelivered(dm, Tr0, i) => i \in tainted
 \* C06: when the job thread gives a connection-mode session up (time-out while waiting for a CTS or
 \* for data packets) a connection abort goes on the bus in the same step
